@@ -111,6 +111,7 @@ mod verif_kani_float {
             Ok(Number::Integer(_)) => assert!(!fits),
             _ => assert!(false),
         }
+        std::mem::forget(arena); // dropping the arena walks its slabs: irrelevant here and very costly for CBMC
     }
 
     #[kani::proof]
@@ -126,6 +127,7 @@ mod verif_kani_float {
             Ok(Number::Integer(_)) => (),
             _ => assert!(false),
         }
+        std::mem::forget(arena); // dropping the arena walks its slabs: irrelevant here and very costly for CBMC
     }
 
     #[kani::proof]
@@ -151,6 +153,7 @@ mod verif_kani_float {
             }
             _ => assert!(false),
         }
+        std::mem::forget(arena); // dropping the arena walks its slabs: irrelevant here and very costly for CBMC
     }
 
     #[kani::proof]
@@ -165,6 +168,7 @@ mod verif_kani_float {
             Err(EvalError::Undefined) => assert!(f.is_nan()),
             _ => assert!(false),
         }
+        std::mem::forget(arena); // dropping the arena walks its slabs: irrelevant here and very costly for CBMC
     }
 
     #[kani::proof]
@@ -180,6 +184,7 @@ mod verif_kani_float {
             Err(EvalError::Undefined) => assert!(f.is_nan()),
             _ => assert!(false),
         }
+        std::mem::forget(arena); // dropping the arena walks its slabs: irrelevant here and very costly for CBMC
     }
 }
 '''},
